@@ -103,12 +103,33 @@ var c12values = map[string][]any{
 	"UseClusterSize":       {false, true},
 	"AdjustmentInterval":   {time.Duration(0), 20 * time.Second, 60 * time.Second}, // default 15s
 	"Weight":               {0.2, 0.7},
-	"AgeOutValue":          {0.0, 0.25, 0.65},                                      // default = Weight
-	"BurstMultiple":        {0.0, 1.5, 3.0},                                        // default 2
-	"BurstDetectionDelay":  {0, 1, 5},                                              // default 3
-	"InitialSampleRate":    {0, 5, 20},                                             // default 10
-	"UpdateFrequency":      {time.Duration(0), 10 * time.Second, 20 * time.Second}, // default 1s
-	"LookbackFrequency":    {time.Duration(0), 60 * time.Second, 120 * time.Second},
+	"AgeOutValue":          {0.0, 0.25, 0.65},                                                                                         // default = Weight
+	"BurstMultiple":        {0.0, 1.5, 3.0},                                                                                           // default 2
+	"BurstDetectionDelay":  {0, 1, 5},                                                                                                 // default 3
+	"InitialSampleRate":    {0, 5, 20},                                                                                                // default 10
+	"UpdateFrequency":      {time.Duration(0), 10 * time.Second, 20 * time.Second, 2 * time.Second, 3 * time.Second, 7 * time.Second}, // default 1s
+	"LookbackFrequency":    {time.Duration(0), 60 * time.Second, 120 * time.Second, 5 * time.Second, 7 * time.Second, 30 * time.Second, 2500 * time.Millisecond},
+}
+
+// (UpdateFrequency, LookbackFrequency) pairs of a windowed-throughput base definition;
+// the second half are lookback windows that are not a whole multiple of the update
+// interval (dynsampler-go floors them).
+var c12windowPairs = [][2]time.Duration{
+	{0, 0}, {10 * time.Second, 60 * time.Second}, {20 * time.Second, 120 * time.Second}, {10 * time.Second, 0}, {0, 60 * time.Second},
+	{2 * time.Second, 5 * time.Second}, {3 * time.Second, 7 * time.Second}, {7 * time.Second, 30 * time.Second}, {0, 2500 * time.Millisecond}, {20 * time.Second, 30 * time.Second},
+}
+
+// c12valid: a lookback window, when given, is not shorter than the update interval.
+func c12valid(d *c12def) bool {
+	w, ok := d.Cfg.(*config.WindowedThroughputSamplerConfig)
+	if !ok || w.LookbackFrequency == 0 {
+		return true
+	}
+	u := time.Duration(w.UpdateFrequency)
+	if u == 0 {
+		u = time.Second
+	}
+	return time.Duration(w.LookbackFrequency) >= u
 }
 
 var c12ratefields = map[string]bool{"SampleRate": true, "GoalSampleRate": true, "GoalThroughputPerSec": true}
@@ -161,6 +182,11 @@ func c12genDef(rng *verifkit.Rand, kind string) *c12def {
 		}
 		c := c12values[f]
 		c12set(cfg, f, c[rng.Intn(len(c))])
+	}
+	if kind == "windowedthroughput" {
+		pr := c12windowPairs[rng.Intn(len(c12windowPairs))]
+		c12set(cfg, "UpdateFrequency", pr[0])
+		c12set(cfg, "LookbackFrequency", pr[1])
 	}
 	return &c12def{Kind: kind, Cfg: cfg}
 }
@@ -266,7 +292,9 @@ func c12pair(rng *verifkit.Rand, kind, rel string) (*c12def, *c12def) {
 			nv := reflect.ValueOf(x).Convert(f.Type()).Interface()
 			if !reflect.DeepEqual(nv, cur) {
 				f.Set(reflect.ValueOf(nv))
-				break
+				if c12valid(v) {
+					break
+				}
 			}
 		}
 		return base, v
@@ -484,7 +512,9 @@ func c12pairFrom(rng *verifkit.Rand, base *c12def, field string) (*c12def, *c12d
 		nv := reflect.ValueOf(c[rng.Intn(len(c))]).Convert(f.Type()).Interface()
 		if !reflect.DeepEqual(nv, cur) {
 			f.Set(reflect.ValueOf(nv))
-			return base, v
+			if c12valid(v) {
+				return base, v
+			}
 		}
 	}
 }
